@@ -158,3 +158,105 @@ fn c06_send_pixels_bounded() {
     let usable = (len / 2) * 2;
     kani::assert(w.writes.get() as usize <= (2 * n) / usable + 1, "C20: more bus transactions than floor(b/usable)+1");
 }
+
+/// a pixel stream of at most 2 pixels whose `size_hint` is legal but loose: the upper bound may exceed what it yields
+pub struct Loose { pub px: [[u8; 2]; 2], pub n: usize, pub pos: usize, pub extra: usize }
+impl Iterator for Loose {
+    type Item = [u8; 2];
+    fn next(&mut self) -> Option<[u8; 2]> {
+        if self.pos < self.n { let v = self.px[self.pos]; self.pos += 1; Some(v) } else { None }
+    }
+    fn size_hint(&self) -> (usize, Option<usize>) { (0, Some(self.n - self.pos + self.extra)) }
+}
+
+/// light wire for the call-sequence harness: the bytes of the CURRENT call only (reset between calls), no DC tracking
+pub struct Wire6 { pub clock: Clock, pub bytes: Cell<[u8; 6]>, pub n: Cell<usize>, pub writes: Cell<u32> }
+pub struct W6Spi<'a>(pub &'a Wire6);
+impl spi::ErrorType for W6Spi<'_> { type Error = MockError; }
+impl SpiDevice for W6Spi<'_> {
+    fn transaction(&mut self, _ops: &mut [spi::Operation<'_, u8>]) -> Result<(), MockError> { unreachable!() }
+    fn write(&mut self, buf: &[u8]) -> Result<(), MockError> {
+        self.0.clock.op()?;
+        self.0.writes.set(self.0.writes.get() + 1);
+        let mut b = self.0.bytes.get();
+        let mut n = self.0.n.get();
+        let mut i = 0;
+        while i < buf.len() {
+            if n < 6 { b[n] = buf[i]; }
+            n += 1;
+            i += 1;
+        }
+        self.0.bytes.set(b);
+        self.0.n.set(n);
+        Ok(())
+    }
+}
+pub struct NoDc;
+impl digital::ErrorType for NoDc { type Error = MockError; }
+impl OutputPin for NoDc {
+    fn set_low(&mut self) -> Result<(), MockError> { Ok(()) }
+    fn set_high(&mut self) -> Result<(), MockError> { Ok(()) }
+}
+
+/// bounded stand-in for "any history of calls": three calls in a row on ONE interface (state carried between calls: the
+/// shared buffer, anything a change adds) - a solid fill, then a fill or a pixel stream (which may hit one arbitrary
+/// transport fault), then another fill; buffer 2..=5 bytes.  Every successful call puts exactly its own bytes on the wire -
+/// nothing stale from an earlier call, nothing skipped - within the transaction bound.
+#[kani::proof]
+#[kani::unwind(8)]
+fn c06_call_sequence_bounded() {
+    let w = Wire6 { clock: Clock::new(), bytes: Cell::new([0; 6]), n: Cell::new(0), writes: Cell::new(0) };
+    let mut store = [0xEEu8; 5];
+    let len: usize = kani::any();
+    kani::assume(len >= 2 && len <= 5);
+    let mut di = SpiInterface::new(W6Spi(&w), NoDc, &mut store[..len]);
+    let usable = (len / 2) * 2;
+    let which: u8 = kani::any();
+    // call 1: a fill
+    let px1: [u8; 2] = kani::any();
+    let c1: u32 = kani::any();
+    kani::assume(c1 >= 1 && c1 <= 3);
+    assert!(di.send_repeated_pixel(px1, c1).is_ok());
+    // call 2: a fill or a stream, possibly failing
+    w.n.set(0);
+    w.writes.set(0);
+    w.clock.fail_at.set(kani::any());
+    if kani::any() {
+        let px: [[u8; 2]; 2] = kani::any();
+        let n: usize = kani::any();
+        let extra: usize = kani::any();
+        kani::assume(n <= 2 && extra <= 2);
+        if di.send_pixels(Loose { px, n, pos: 0, extra }).is_ok() {
+            let b = w.bytes.get();
+            let i: usize = kani::any();
+            kani::assume(i < 2 * n);
+            if which == 0 { kani::assert(w.n.get() == 2 * n && b[i] == px[i / 2][i % 2], "C05: C06: bytes of a pixel stream that follows a fill"); }
+            if which == 1 { kani::assert(w.writes.get() as usize <= (2 * n) / usable + 1, "C20: more bus transactions than floor(b/usable)+1 in a stream that follows a fill"); }
+        }
+    } else {
+        let px2: [u8; 2] = kani::any();
+        let c2: u32 = kani::any();
+        kani::assume(c2 >= 1 && c2 <= 3);
+        if di.send_repeated_pixel(px2, c2).is_ok() {
+            let b = w.bytes.get();
+            let i: usize = kani::any();
+            kani::assume(i < 2 * c2 as usize);
+            if which == 2 { kani::assert(w.n.get() == 2 * c2 as usize && b[i] == px2[i % 2], "C05: C06: bytes of a fill that follows a fill"); }
+            if which == 3 { kani::assert(w.writes.get() as usize <= (2 * c2 as usize) / usable + 1, "C20: more bus transactions than floor(b/usable)+1 in a fill that follows a smaller fill"); }
+        }
+    }
+    // call 3: another fill (same or different colour), fault-free
+    w.n.set(0);
+    w.writes.set(0);
+    w.clock.fail_at.set(u32::MAX);
+    let px3: [u8; 2] = if kani::any() { px1 } else { kani::any() };
+    let c3: u32 = kani::any();
+    kani::assume(c3 >= 1 && c3 <= 3);
+    assert!(di.send_repeated_pixel(px3, c3).is_ok());
+    let b = w.bytes.get();
+    let i: usize = kani::any();
+    kani::assume(i < 2 * c3 as usize);
+    if which == 4 { kani::assert(w.n.get() == 2 * c3 as usize && b[i] == px3[i % 2], "C05: C06: bytes of a fill that follows other calls (stale buffer contents)"); }
+    if which == 5 { kani::assert(w.writes.get() as usize <= (2 * c3 as usize) / usable + 1, "C20: more bus transactions than floor(b/usable)+1 in a fill that follows other calls"); }
+    kani::cover!(px3 == px1 && c3 == 3 && len == 5);
+}
